@@ -282,11 +282,47 @@ CHECKS['C15'] = dict(
     assumptions=['allocation failures are injected through the malloc/calloc/realloc/strdup link-time interposers (NULL + errno=ENOMEM)',
                  'for void operations "reports failure" means errno==ENOMEM with contents unchanged'])
 
+
+def c13_jobs(tier, seed):
+    t = tier == 'thorough'
+    W = ('alloc', 'lock')
+    return [
+        Job('h_conc', 'plain', wraps=W, tag='conc-controlled', args=['--mode', 'controlled', '--cases', '1120' if t else '224', '--budget', '60000' if t else '3000']),
+        Job('h_conc', 'plain', wraps=W, tag='conc-stress', args=['--mode', 'stress', '--cases', '4480' if t else '560']),
+        Job('h_conc', 'tsan', wraps=W, tag='conc-tsan', shards=8, args=['--mode', 'stress', '--cases', '1120' if t else '168']),
+    ]
+
+
+def c13_evidence(res, spec, tier):
+    d = default_evidence(res, spec, tier)
+    d['exhaustive'] = False
+    d['programs'] = res.count('programs')
+    d['programs_enumerated_exhaustively'] = res.count('programs_enumerated_exhaustively')
+    d['schedules_executed'] = res.count('schedules_executed')
+    d['distinct_history_outcomes'] = len(res.dist.get('distinct_outcomes', ()))
+    return d
+
+
+CHECKS['C13'] = dict(
+    title='thread-safe option makes concurrent use linearizable', level='exploration',
+    jobs=c13_jobs, evidence=c13_evidence,
+    rule='controlled mode: small client programs (2 threads x 2-3 ops, 3 threads x 2 ops, directed ones such as addlast || popfirst;popfirst, toarray || addlast;addlast, put || remove;get || get;remove, locked walk || put;remove) '
+         'on tree, hash, unique list table, list, queue, stack, vector created thread-safe; each program is run under every schedule (depth-first over the choices at outermost lock acquire / after release / allocator calls / usleep; '
+         'a worker waiting for an owned mutex is disabled) when that fits the budget, else under budget DFS + budget random schedules; every history (invocation/response stamps, results, final contents) is searched for a linearization (Wing-Gong, memoised). '
+         'stress mode: 4-8 truly concurrent threads with random delays at the same points, unique values; maps checked per key (P-compositionality), sequences by conservation / no-duplicate / not-from-the-future / per-producer FIFO rules; the same workload on a TSan build. '
+         'evaluation = one schedule executed (controlled) or one operation (stress); distinct = distinct schedules (choice sequences) + distinct stress outcome vectors.',
+    require=['schedules_executed', 'programs_enumerated_exhaustively', 'histories_linearizable', 'stress_histories', 'stress_histories_raced_under_tsan'],
+    san_ignore=None,
+    assumptions=['pre-emption is injected only at outermost lock acquisition/release, library allocator calls and usleep; races between two unlocked accesses inside one segment are visible only to TSan on the stress runs',
+                 'size() is not issued concurrently (unlocked read by design, not in the statement); it is read at quiescence',
+                 'sequential models in h_conc.c; gcc 12 libtsan'])
+
 # --------------------------------------------------------------------------- manifest texts
 NOT_APPLICABLE = {}
 DESIGN_REF = {}
 LEVEL_NOTE = {}
 TECHNIQUE = {
+    'C13': 'schedule injection (DFS/random over lock/allocator scheduling points) + Wing-Gong linearizability checking of recorded histories; stress with injected delays + conservation checkers; ThreadSanitizer',
     'C15': 'allocator failpoints (k-th allocation of the call, single / all-subsequent) + before/after model equality + invariant walkers + ledger under ASan',
     'C14': 'lock-depth monitor in trylock/unlock interposers + probe-thread trylock, enumerated over functions x outcome classes x allocation-failure index',
     'C12': 'scribble-and-free of caller buffers + retained-copy pool re-verification + allocation-identity checks under ASan',
@@ -303,6 +339,7 @@ TECHNIQUE = {
     'C04': 'reference-model floor oracle + continuation multiset audit; CPU watchdog',
 }
 LEVEL_TEXT = {
+    'C13': 'Real pthreads run small client programs under enumerated or sampled schedules at lock/allocator granularity; each recorded history is checked for linearizability against a sequential model; truly concurrent stress histories are checked by per-key linearizability / conservation rules and by ThreadSanitizer.',
     'C15': 'Fault enumeration: every allocating operation is executed from every state of a corpus with each of its allocations failing in turn; the reference model, structural walkers, a follow-up battery, the allocation ledger and ASan decide.',
     'C14': 'Fault enumeration: each public function of each lockable container is executed for each outcome class it can produce and with each of its allocations failing in turn; the lock depth seen by the interposed pthread primitives must be balanced and a second thread must be able to take the lock.',
     'C12': 'Every put-like call gets throw-away exact-size buffers that are scribbled and freed immediately, every copying accessor of every container is exercised and its result retained, re-verified after later mutations and after release, and finally freed, all under ASan with an allocation ledger.',
